@@ -22,6 +22,7 @@ int main() {
     for (int j = 0; j < m; j++) scanf("%d", &cols[j]);
     Matrix<std::complex<double>> A(n, m);
     for (int i = 0; i < n * m; i++) { double re, im; scanf("%lf %lf", &re, &im); A[i] = std::complex<double>(re, im); }
+    std::complex<double> *abuf = A.data; int *rbuf = rows.data, *cbuf = cols.data;
     try {
         if (mode == 'L') {
             Vector<std::complex<double>> v = permanent_laplace_cpp<double>(A, rows, cols);
@@ -31,6 +32,11 @@ int main() {
             printf("%.17g %.17g\n", p.real(), p.imag());
         }
     } catch (std::string &e) { printf("throw\n"); }
+    printf("after");
+    for (int i = 0; i < n * m; i++) printf(" %.17g %.17g", abuf[i].real(), abuf[i].imag());
+    for (int i = 0; i < n; i++) printf(" %d", rbuf[i]);
+    for (int j = 0; j < m; j++) printf(" %d", cbuf[j]);
+    printf("\n");
     return 0;
 }
 '''
@@ -44,6 +50,8 @@ int main() {
     for (int i = 0; i < n * n; i++) { double x; scanf("%lf", &x); A[i] = x; }
     double p = pfaffian_cpp<double>(A);
     printf("%.17g\n", p);
+    for (int i = 0; i < n * n; i++) printf("%.17g ", A[i]);
+    printf("\n");
     return 0;
 }
 '''
@@ -112,6 +120,10 @@ def native_permanent(A, rows, cols, hc, mode="P"):
     if "runtime error" in err or code not in (0,):
         ub = (err.strip().splitlines() or ["exit code %d" % code])[0][-200:]
     val = None
+    if "after" in out:
+        out, aft = out.split("after", 1)
+        a = aft.split()
+        LAST["perm_after"] = ([complex(float(a[2 * i]), float(a[2 * i + 1])) for i in range(n * m)], [int(x) for x in a[2 * n * m:2 * n * m + n]], [int(x) for x in a[2 * n * m + n:]])
     toks = out.split()
     if mode == "L":
         if toks and toks[0] != "throw" and len(toks) % 2 == 0:
@@ -137,7 +149,11 @@ def native_pfaffian(M):
     if "runtime error" in err or code != 0:
         ub = (err.strip().splitlines() or ["exit code %d" % code])[0][-200:]
     toks = out.split()
+    LAST["pfaffian_after"] = [float(t) for t in toks[1:]]
     return (float(toks[0]) if toks else None), ub
+
+
+LAST = {}
 
 
 def interp_pfaffian(env, M):
